@@ -178,3 +178,20 @@ def through_checked_hash(f, policy, mod=None, depth=0, memo=None):
         for s in f.succ(b):
             work.append(s)
     return True, None
+
+
+def expected_key(mod, policy_text, hashed, dyn):
+    """the table key Policy::dynamic_vptr must use for an object whose id is `dyn`: the id itself, or
+    (id * hash_mult) >> hash_shift with the policy's own hash parameters."""
+    if not hashed:
+        return dyn
+    mult = shift = None
+    for g in mod.globals.values():
+        d = g["dname"]
+        if d.endswith("::hash_mult") and ("fast_perfect_hash<%s>" % policy_text) in d:
+            mult = d
+        if d.endswith("::hash_shift") and ("fast_perfect_hash<%s>" % policy_text) in d:
+            shift = d
+    if mult is None or shift is None:
+        return None
+    return ("op", "lshr", sym.mk_mul([dyn, ("load", ("global", mult))]), ("load", ("global", shift)))
